@@ -15,6 +15,7 @@ import (
 	"net/http/httptest"
 	"strings"
 	"sync"
+	"sync/atomic"
 	"testing"
 	"time"
 
@@ -59,6 +60,12 @@ func genC14(t *rapid.T) c14Case {
 	}
 	if c.Server == "simple" && rapid.IntRange(0, 2).Draw(t, "chunk?") == 0 {
 		c.Chunk = rapid.SampledFrom([]int{1, 3, 7, 16, 50, 200}).Draw(t, "chunk")
+	}
+	if c.Server == "simple" && c.Conns >= 2 && rapid.IntRange(0, 2).Draw(t, "stalled?") == 0 {
+		// an unknown-method request whose last byte arrives only after every other connection
+		// has been served
+		at := rapid.IntRange(0, len(c.Reqs)-1).Draw(t, "stalledat")
+		c.Reqs[at].Kind = "unknown-stalled"
 	}
 	if c.Server == "simple" && rapid.IntRange(0, 2).Draw(t, "gone?") == 0 {
 		// the client hangs up while its handler is still running: the reply cannot be written
@@ -136,7 +143,7 @@ func c14FrameL(proto string, kind string, id int, size int) (frame []byte, opid 
 		msg = thriftMessage(proto, "echo", thrift.CALL, &strStruct{Name: "echo_args", ID: 1, V: &arg})
 	case "oneway":
 		msg = thriftMessage(proto, "fire", thrift.ONEWAY, &strStruct{Name: "fire_args", ID: 1, V: &arg})
-	case "unknown":
+	case "unknown", "unknown-stalled":
 		msg = thriftMessage(proto, "nosuch", thrift.CALL, &shapeStruct{Fields: []shapeField{{"string", 3}, {"list", 2}, {"struct", 1}}})
 	case "missing":
 		msg = thriftMessage(proto, "echo", thrift.CALL, &shapeStruct{})
@@ -221,7 +228,7 @@ func checkReply(proto, kind string, id int, opid string, content []byte) *ev.Fai
 		wantEx = frugal.APPLICATION_EXCEPTION_INTERNAL_ERROR
 	case "appex":
 		wantEx = 42
-	case "unknown":
+	case "unknown", "unknown-stalled":
 		wantEx = frugal.APPLICATION_EXCEPTION_UNKNOWN_METHOD
 	case "missing", "wrongtype", "truncated":
 		wantEx = frugal.APPLICATION_EXCEPTION_PROTOCOL_ERROR
@@ -347,10 +354,31 @@ func execC14Inner(c c14Case) *ev.Failure {
 		go srv.Serve()
 		defer srv.Stop()
 		addr := sock.Addr().String()
+		stalledConn := -1
+		for cn := range byConn {
+			for _, it := range byConn[cn] {
+				if it.kind == "unknown-stalled" {
+					stalledConn = cn
+				}
+			}
+		}
+		var othersLeft int32
+		for cn := range byConn {
+			if cn != stalledConn {
+				othersLeft++
+			}
+		}
+		replyWait := 5 * time.Second
+		if stalledConn >= 0 {
+			replyWait = 2 * time.Second // must be answered while the stalled request is pending
+		}
 		for cn := range byConn {
 			wg.Add(1)
 			go func(cn int) {
 				defer wg.Done()
+				if cn != stalledConn {
+					defer atomic.AddInt32(&othersLeft, -1)
+				}
 				conn, err := net.Dial("tcp", addr)
 				if err != nil {
 					fails[cn] = ev.Failf("harness:dial", "%v", err)
@@ -377,7 +405,12 @@ func execC14Inner(c c14Case) *ev.Failure {
 				for _, it := range byConn[cn] {
 					frame, opid := c14Frame(c.Proto, it.kind, it.id)
 					var werr error
-					if c.Chunk > 0 {
+					if it.kind == "unknown-stalled" {
+						if _, werr = conn.Write(frame[:len(frame)-1]); werr == nil {
+							waitFor(4*time.Second, func() bool { return atomic.LoadInt32(&othersLeft) == 0 })
+							_, werr = conn.Write(frame[len(frame)-1:])
+						}
+					} else if c.Chunk > 0 {
 						for off := 0; off < len(frame) && werr == nil; off += c.Chunk {
 							end := off + c.Chunk
 							if end > len(frame) {
@@ -406,9 +439,13 @@ func execC14Inner(c c14Case) *ev.Failure {
 						goneOnce.Do(func() { close(goneClosed) })
 						return
 					}
-					b, err := readFrame(5 * time.Second)
+					wait := replyWait
+					if cn == stalledConn {
+						wait = 5 * time.Second
+					}
+					b, err := readFrame(wait)
 					if err != nil {
-						fails[cn] = ev.Failf("no-reply", "connection %d: no reply to request %d (%s): %v", cn, it.id, it.kind, err)
+						fails[cn] = ev.Failf("no-reply", "connection %d: no reply to request %d (%s) within %v (a request on connection %d is pending with its last byte outstanding: %v): %v", cn, it.id, it.kind, wait, stalledConn, stalledConn >= 0 && cn != stalledConn, err)
 						return
 					}
 					if f := checkReply(c.Proto, it.kind, it.id, opid, b); f != nil {
